@@ -60,6 +60,10 @@ Definition values (d : doc) (f : N) : list value := assoc f (d_vals d).
 
 Definition has_token (d : doc) (f t : N) : bool := existsb (N.eqb t) (tokens d f).
 
+(* a JSON sub-path holds typed values (numbers, booleans, dates) and/or strings (modelled as tokens) *)
+Definition has_value (d : doc) (f : N) : bool :=
+  negb (match values d f with [] => true | _ => false end) || negb (match tokens d f with [] => true | _ => false end).
+
 (* positions (as integers) at which token t occurs *)
 Fixpoint positions_from (p : Z) (t : N) (toks : list N) : list Z :=
   match toks with
@@ -97,6 +101,7 @@ Inductive leaf :=
 | LRange (f : N) (lo hi : bound)
 | LTermSet (f : N) (ts : list N)
 | LExists (f : N)
+| LExistsPaths (fs : list N)                             (* exists on a JSON field with sub-paths: any of its path columns *)
 | LAuto (f : N) (a : N).                                 (* fuzzy / regex: terms accepted by automaton a *)
 
 Section Sem.
@@ -113,6 +118,7 @@ Section Sem.
     | LRange f lo hi => existsb (in_range lo hi) (values d f)
     | LTermSet f ts => existsb (fun t => has_token d f t) ts
     | LExists f => negb (match values d f with [] => true | _ => false end)
+    | LExistsPaths fs => existsb (has_value d) fs
     | LAuto f a => existsb (accepts a) (tokens d f)
     end.
 
